@@ -250,19 +250,22 @@ def make_ops(rnd, env):
 
     ops += [("get_fg_bg_colors", colours, None, None), ("get_terminal_name_version", namever, None, None), ("get_cell_size/query", cellsize, None, None)]
 
-    def draw_still():
-        from ..subjects import SubjSGR
+    def make_draw(animated, hide_cursor):
+        def draw():
+            from .. import drawlib as dl
+            from ..subjects import SubjSGR
 
-        SubjSGR(1, 1, (2, 1), "text").draw(echo_input=False, check_size=False)
+            if animated:
+                with dl.patched_time(dl.VirtualTime()):
+                    SubjSGR(2, 1, (2, 1), "text").draw(echo_input=False, loops=1, hide_cursor=hide_cursor)
+            else:
+                SubjSGR(1, 1, (2, 1), "text").draw(echo_input=False, check_size=False, hide_cursor=hide_cursor)
 
-    def draw_anim():
-        from .. import drawlib as dl
-        from ..subjects import SubjSGR
+        return draw
 
-        with dl.patched_time(dl.VirtualTime()):
-            SubjSGR(2, 1, (2, 1), "text").draw(echo_input=False, loops=1)
-
-    ops += [("draw/still", draw_still, None, None), ("draw/animated", draw_anim, None, None)]
+    for animated in (False, True):
+        for hc in (True, False):
+            ops.append(("draw/%s%s" % ("animated" if animated else "still", "" if hc else "/cursor-not-hidden"), make_draw(animated, hc), None, None))
     return ops
 
 
